@@ -18,6 +18,17 @@ use crate::{
 pub struct Msg {
   pub k: u8,
   pub v: u32,
+  /// filler so that payload sizes (and hence fragment counts) can be chosen
+  pub pad: Vec<u8>,
+}
+impl Msg {
+  pub fn new(k: u8, v: u32, pad_len: usize) -> Self {
+    Msg { k, v, pad: (0..pad_len).map(|i| (v as u8).wrapping_mul(31).wrapping_add(i as u8)).collect() }
+  }
+  /// CDR_LE serialization (without the 4-byte encapsulation header)
+  pub fn cdr(&self) -> Vec<u8> {
+    crate::serialization::to_vec::<Msg, byteorder::LittleEndian>(self).unwrap()
+  }
 }
 impl Keyed for Msg {
   type K = u8;
